@@ -17,6 +17,15 @@ Definition judge_C19_dfa (D : dfa nat) (ws : list word) (oacc : list (option boo
               [ match ore with Some r => match re_dfa_equivb r D with Some false => 13 | _ => 0 end | None => 13 end ] ++
               map (fun f => flags_ok f 20) flags).
 
+(* the same without the DFA-to-regexp clause (large DFAs: the extracted expression is too big for the exact oracle) *)
+Definition judge_C19_dfa_min (D : dfa nat) (ws : list word) (oacc : list (option bool)) (n : nat) (owords : option (list word))
+           (mins : list (option (dfa nat))) (flags : list (bool * bool * bool * bool)) : nat :=
+  worst_code ([ check (dfa_wf_b D) 9;
+                check (eqb oacc (map (dfa_accepts D) ws)) 10;
+                check (match owords, dfa_words D n with Some l, Some m => seteqb l m | _, _ => false end) 11 ] ++
+              map (fun o => match o with Some M => check (dfa_wf_b M && dfa_equivb D M) 12 | None => 12 end) mins ++
+              map (fun f => flags_ok f 20) flags).
+
 Definition judge_C19_nfa (N : nfa nat) (ws : list word) (oacc : list (option bool)) (n : nat) (owords : option (list word))
            (odet : option (dfa nat)) (ostar : option (nfa nat)) (names : list nat) (flags : list (bool * bool * bool * bool)) : nat :=
   worst_code ([ check (nfa_wf_b N) 9;
